@@ -190,7 +190,7 @@ def w_deep(ctx, rng, i):
     n = 128
     n_pol = 1 + i % 2
     peak = float(rng.uniform(0.1, 0.5))
-    x = make_field(rng, n, n_pol, peak, ["gauss_train", "nrz"][i % 2], fs)
+    x = make_field(rng, n, n_pol, peak, ["gauss_train", "nrz"][(i // 2) % 2], fs)      # (selectors of one workload use different digits of the index: i % 2 for both tied the pulse shape to the polarisation count)
     L = min(100.0, max(float(rng.uniform(5, 40)), 2.6 / peak))          # long enough for ~9 rad with gamma <= 5 /W/km
     alpha = float(rng.uniform(0, 0.1)) if i % 3 else 0.0
     a = alpha * math.log(10) / 10
@@ -358,14 +358,14 @@ def w_converge(ctx, rng, i):
         T.gv(sps=8, fs=fs)
     n = int(rng.choice([128, 256, 208, 127]))
     n_pol = 1 + (i % 2)
-    kind = ["gauss_train", "nrz", "random_bl", "leading_zeros"][i % 4]
+    kind = ["gauss_train", "nrz", "random_bl", "leading_zeros"][(i // 2) % 4]
     peak = float(10 ** rng.uniform(-2.5, math.log10(0.5)))
     x = make_field(rng, n, n_pol, peak, kind, fs)
     L = float(10 ** rng.uniform(0, 1.9))
     alpha = float(rng.uniform(0, 0.5)) if i % 3 else 0.0
     b2 = float(rng.uniform(2, 25)) * float(rng.choice([1, -1]))
     b3 = float(rng.uniform(-0.2, 0.2)) if rng.integers(2) else 0.0
-    if i % 8 == 5:                    # zero-dispersion point: beta2 = 0 exactly, beta3 only
+    if i % 7 == 5:                    # zero-dispersion point: beta2 = 0 exactly, beta3 only
         b2, b3 = 0.0, float(rng.uniform(0.05, 0.2)) * float(rng.choice([1, -1]))
     target = float(rng.uniform(0.3, 4.0)) if ctx.tier == "quick" else float(rng.uniform(0.3, 10.0))
     gamma = min(5.0, target / (peak * L))
@@ -403,7 +403,7 @@ def w_two_grids(ctx, rng, i):
     n_pol = 1 + i % 2
     fa, fb = (float(v) for v in rng.choice([4e10, 8e10, 1.6e11, 3.2e11, 6.4e11], 2, replace=False))
     peak = float(rng.uniform(0.05, 0.5))
-    x = make_field(rng, n, n_pol, peak, ["gauss_train", "random_bl"][i % 2], fa)
+    x = make_field(rng, n, n_pol, peak, ["gauss_train", "random_bl"][(i // 2) % 2], fa)
     L = float(rng.uniform(2, 30))
     alpha = float(rng.uniform(0, 0.4))
     b2 = float(rng.uniform(3, 25)) * float(rng.choice([1, -1]))
